@@ -5,6 +5,8 @@
 #include <cstddef>
 #include <set>
 #include <unordered_map>
+#include <vector>
+#include <string>
 
 namespace sim {
 
@@ -17,10 +19,16 @@ struct Alloc {
 	std::unordered_map<void *, uint64_t> live; // pointer -> global serial
 	uint64_t serial = 0;
 	uint64_t bad_free = 0;         // frees of pointers not in the live set (double free / foreign pointer)
-	void reset_all() { count = 0; armed = false; fail_at.clear(); fail_from = 0; fired = 0; live.clear(); serial = 0; bad_free = 0; }
+	bool trace = false;            // record the call stack of every allocation (leak attribution)
+	std::unordered_map<void *, std::vector<void *>> stacks;
+	std::string last_fail_site;     // innermost libksi frames of the allocation that was made to fail last
+	void reset_all() { count = 0; armed = false; fail_at.clear(); fail_from = 0; fired = 0; live.clear(); serial = 0; bad_free = 0; stacks.clear(); last_fail_site.clear(); }
 	void reset_counter() { count = 0; fired = 0; }
 };
 
 extern Alloc A;
+
+// function name of the innermost libksi frame (not the allocation wrappers) that allocated p; "?" if unknown
+std::string alloc_site(void *p);
 
 } // namespace sim
